@@ -391,7 +391,7 @@ func callChainHas(v ssa.Value, pkg, name string, depth int) bool {
 	}
 	switch x := v.(type) {
 	case *ssa.Call:
-		if calleeIs(x, pkg, "", name) {
+		if calleeIs(x, pkg, "", name) || (pkg == "time" && calleeIs(x, pkg, "Time", name)) {
 			return true
 		}
 		for _, a := range x.Call.Args {
